@@ -296,7 +296,7 @@ func runC13(res *lp.Result) {
 			}
 		}
 	}
-	temporalSources(res, rng)
+	temporalSources(res, rng, ask)
 	// float / double
 	fbits := []uint64{0, 1 << 63, 0x3FF0000000000000, 0x7FF0000000000000, 0xFFF0000000000000, 0x7FF8000000000001, 1, 0x000FFFFFFFFFFFFF,
 		0x36A0000000000000, 0x47EFFFFFE0000000, 0x47EFFFFFF0000000, 0x3FB999999999999A, 0x3FE0000000000000}
@@ -395,7 +395,7 @@ func (s *sliceWriter) Write(p []byte) (int, error) { s.b = append(s.b, p...); re
 // temporalSources: time.Time and time.Duration handed to the timestamp, date and time codecs, judged against arbitrary-precision
 // arithmetic on what the Go value holds (t.Unix() seconds and t.Nanosecond()): milliseconds = floor((s·10^9+ns)/10^6) must fit
 // int64, days = floor(s/86400) must fit int32, a Duration must lie in [0, 24h) — otherwise an error, never another number.
-func temporalSources(res *lp.Result, rng *lp.Rng) {
+func temporalSources(res *lp.Result, rng *lp.Rng, ask func(l, want, d string)) {
 	v4 := primitive.ProtocolVersion4
 	secs := []int64{0, 1, -1, 86399, 86400, -86400, -86401, 1 << 31, -(1 << 31), 1 << 32,
 		9223372036854775, 9223372036854776, 9223372036854777, -9223372036854775, -9223372036854776, -9223372036854777,
@@ -419,6 +419,27 @@ func temporalSources(res *lp.Result, rng *lp.Rng) {
 				total := new(big.Int).Add(new(big.Int).Mul(hs, big.NewInt(1e9)), hn)
 				ms := new(big.Int).Div(total, big.NewInt(1e6)) // Euclidean = floor for a positive divisor
 				days := new(big.Int).Div(hs, big.NewInt(86400))
+				if zi == 0 {
+					// the exported conversion functions against the model Cql/TimeConv.lean (theorems: Cql/Props/C13Time.lean)
+					okOr := func(v int64, err error) string {
+						if err != nil {
+							return "err"
+						}
+						return fmt.Sprintf("ok %d", v)
+					}
+					ms, err := datacodec.ConvertTimeToEpochMillis(t)
+					ask(fmt.Sprintf("conv time millis %d %d", t.Unix(), t.Nanosecond()), okOr(ms, err), fmt.Sprintf("ConvertTimeToEpochMillis unix seconds %d nanos %d", t.Unix(), t.Nanosecond()))
+					dd, err := datacodec.ConvertTimeToEpochDays(t)
+					ask(fmt.Sprintf("conv time days %d", t.Unix()), okOr(int64(dd), err), fmt.Sprintf("ConvertTimeToEpochDays unix seconds %d", t.Unix()))
+					if ns == 0 {
+						back := datacodec.ConvertEpochMillisToTime(sec) // any int64 taken as milliseconds
+						ask(fmt.Sprintf("conv time totime %d", sec), fmt.Sprintf("%d %d", back.Unix(), back.Nanosecond()), fmt.Sprintf("ConvertEpochMillisToTime %d", sec))
+						d32 := int32(sec)
+						ask(fmt.Sprintf("conv time fromdays %d", d32), fmt.Sprint(datacodec.ConvertEpochDaysToTime(d32).Unix()), fmt.Sprintf("ConvertEpochDaysToTime %d", d32))
+						nd, err := datacodec.ConvertDurationToNanosOfDay(time.Duration(sec))
+						ask(fmt.Sprintf("conv time dur %d", sec), okOr(nd, err), fmt.Sprintf("ConvertDurationToNanosOfDay %d", sec))
+					}
+				}
 				for pi, src := range []interface{}{t, &t} {
 					if zi+pi == 2 {
 						continue
